@@ -54,6 +54,11 @@ func (r *Replayer) Apply(op *Op) error {
 	var err error
 	switch op.Kind {
 	case OpMkdir:
+		if op.Path == "." {
+			// the root itself: the replay directory always exists (a store treats a
+			// missing and an empty root alike)
+			break
+		}
 		err = syscall.Mkdir(p, op.Mode)
 	case OpCreate:
 		fl := openFlags(op.Flags)
